@@ -384,7 +384,13 @@ func (f *FaceModule) update(interest *spec.Interest, pitToken []byte, inFace uin
 	}
 
 	if params.FacePersistency != nil {
-		if selectedFace.RemoteURI().Scheme() == "ether" && *params.FacePersistency != uint64(face.PersistencyPermanent) {
+		if *params.FacePersistency != uint64(face.PersistencyPersistent) &&
+			*params.FacePersistency != uint64(face.PersistencyOnDemand) &&
+			*params.FacePersistency != uint64(face.PersistencyPermanent) {
+			// Not a persistency at all, whatever the kind of face
+			responseParams["FacePersistency"] = uint64(*params.FacePersistency)
+			areParamsValid = false
+		} else if selectedFace.RemoteURI().Scheme() == "ether" && *params.FacePersistency != uint64(face.PersistencyPermanent) {
 			responseParams["FacePersistency"] = uint64(*params.FacePersistency)
 			areParamsValid = false
 		} else if (selectedFace.RemoteURI().Scheme() == "udp4" || selectedFace.RemoteURI().Scheme() == "udp6") &&
